@@ -223,14 +223,15 @@ def tight_case(case, rec, ssj):
     """Tight tables (every size pair <= N with the least qualifying overlap, shared tokens last):
     the join must agree with every filter+matcher pipeline exactly on the threshold."""
     m, t, N = case['measure'], case['threshold'], case['N']
-    sizes = [(a, b) for a in range(1, N + 1) for b in range(1, N + 1)]
+    # amin > 1: no short record on the left at all (every left record is longer than some probe)
+    sizes = [(a, b) for a in range(case.get('amin', 1), N + 1) for b in range(1, N + 1)]
     L, R, groups = gen.tight_tables(m, t, sizes)
     call = {'api': T.MEASURE_JOIN[m], 'ltable': L, 'rtable': R, 'l_key': 'id', 'r_key': 'id',
             'l_attr': 's', 'r_attr': 's', 'tok': {'kind': 'ws', 'return_set': True}, 'threshold': t,
             'comp_op': case.get('comp_op', '>='), 'allow_empty': True, 'allow_missing': False,
             'out_sim_score': True, 'n_jobs': 1}
     nt = 0
-    for kind in ('PrefixFilter', 'PositionFilter', 'OverlapFilter'):
+    for kind in ('PrefixFilter', 'PositionFilter', 'OverlapFilter') + (('SizeFilter',) if N <= 16 else ()):
         fspec = {'kind': kind, 'measure': m, 'threshold': t, 'overlap_size': 1, 'comp_op': '>='}
         res = run_pipeline(ssj, rec, case, call, fspec, 1, 1, m)
         if res is None:
@@ -324,6 +325,8 @@ def run_shard(shard, rec):
         for ci, (m, t) in enumerate(shard['combos']):
             case = {'gen': 'tight', 'measure': m, 'threshold': t, 'N': shard['N'],
                     'comp_op': '>=' if ci % 4 else '='}
+            if ci % 3 == 1:
+                case['amin'] = (3, 5, 8)[ci % 9 // 3]
             st = tight_case(case, rec, ssj)
             rec.case(sig=('tight', m, t, shard['N'], case['comp_op']), nontrivial=st['nontrivial'] > 0, n=4)
             rec.add('api_filter', (st['call']['api'], 'tight'))
